@@ -202,12 +202,33 @@ use ChildState::*;
             if new != old {
                 posix::fcntl(fd, posix::F_SETFD, Some(new))?;
             }"""),
- ("pipeline-popen-explicit-match", "src/builder.rs",
-  """                ret.push(runner.popen()?);""",
+ ("pipeline-start-if-let-err", "src/builder.rs",
   """                match runner.popen() {
-                    Ok(p) => ret.push(p),
-                    Err(e) => return Err(e),
-                }"""),
+                    Ok(popen) => ret.push(popen),
+                    Err(err) => return Err((err, ret)),
+                }""",
+  """                let popen = match runner.popen() {
+                    Ok(popen) => popen,
+                    Err(err) => {
+                        let started = ret;
+                        return Err((err, started));
+                    }
+                };
+                ret.push(popen);"""),
+ ("pipeline-popen-map_err", "src/builder.rs",
+  """            match self.start() {
+                Ok(started) => Ok(started),
+                Err((err, started)) => {
+                    // dropping the commands started so far waits for them
+                    drop(started);
+                    Err(err)
+                }
+            }""",
+  """            self.start().map_err(|(err, started)| {
+                // dropping the commands started so far waits for them
+                drop(started);
+                err
+            })"""),
  ("input-exhausted-ge", "src/communicate.rs",
   """                    if self.input_pos == self.input_data.len() {""",
   """                    if self.input_pos >= self.input_data.len() {"""),
